@@ -1,15 +1,16 @@
-#!/usr/bin/env python3
+#!/venv/bin/python
 """Regenerate MANIFEST.json from the table below (single source of truth for the registered checks)."""
 import json, os, subprocess
 ROOT = os.path.dirname(os.path.dirname(os.path.abspath(__file__)))
 ALL = [f"C{i:02d}" for i in range(1, 21)]
 
-# id -> (level category, technique, level text, level note, design ref)
-CHECKS = {
-    "C18": ("exploration", "bounded exhaustive enumeration + Hypothesis-sampled scenario trees against a reference predicate",
-            "All scenario trees of <=2 (quick) / <=3 (thorough) nodes over a reduced resource universe are enumerated and larger trees (<=8 nodes) are sampled with Hypothesis; both lifecycle checks are run on real cases in a real ScenarioRecorder after every node and compared with the statement's predicate in both directions. Exploration: a green run is 'held on everything explored'.",
-            "Trusts CPython, Hypothesis as generator/shrinker; cases recorded by hand rather than by a live state machine; plural heuristic not exercised.", "3/C18"),
-}
+import importlib, sys
+sys.path.insert(0, ROOT)
+CHECKS = {}
+for pid in ALL:
+    if os.path.exists(os.path.join(ROOT, "vfw", "props", pid.lower() + ".py")):
+        m = importlib.import_module(f"vfw.props.{pid.lower()}").MANIFEST
+        CHECKS[pid] = (m["category"], m["technique"], m["text"], m["note"], f"3/{pid}")
 NOT_YET = "check not built yet in this session (work in progress; see DESIGN.md section 3 for the planned generator and oracle)"
 
 def main():
